@@ -64,4 +64,12 @@ theorem C09_usage_adds_one_level (C : Cfg) (recI recI') (recU recU') (inp : Inpu
     armUsage C recI recU inp s path ii sc rd id w x = armUsage C recI' recU' inp s path ii sc rd id w x :=
   armUsage_depth C recI recI' recU recU' inp s path ii sc rd id w x hU
 
+
+/-- **reading an included file changes neither counter**: `preprocess_inner` hands both depths on to `preprocess_str` unchanged (the include level
+    was already counted by the `include arm: `C09_include_adds_one_level`) -/
+theorem C09_inner_keeps_both_depths (C : Cfg) (fuel : Nat) (path content : Bytes) (d : Defines) (sc ii : Bool) (rd id : Nat)
+    (h : C.fs.find path = some (some content)) :
+    preprocessInner C (fuel + 1) path d sc ii rd id = preprocessStr C fuel content path d ii sc rd id := by
+  simp [preprocessInner, h]
+
 end Sv
